@@ -1,10 +1,11 @@
 (* C11 — JSON and protobuf transports carry Data exactly.
    This file holds ONLY the statements of the property theorems, each closed by `exact <lemma>`, and
    `Print Assumptions` beneath.  Models: Model/Json.v (serialization/jsonstreamer.go, jsontodata.go),
-   Model/Pb.v (proto/convert.go, types/basiccollector.go).  An "event tree" `ev` is one top-level call on a
+   Model/Pb.v (proto/convert.go, types/basiccollector.go), Model/PbMem.v (the stack of protoConsumer as a Go slice
+   over backing arrays that `append` abandons when it grows).  An "event tree" `ev` is one top-level call on a
    px.ValueConsumer with the calls its doer makes nested inside (Add / AddRef / AddArray / AddHash). *)
 From Coq Require Import ZArith NArith Bool List.
-From PcoreV Require Import Model.Base Model.Json Model.Pb Proofs.JsonProofs Proofs.PbProofs.
+From PcoreV Require Import Model.Base Model.Json Model.Pb Model.PbMem Proofs.JsonProofs Proofs.PbProofs Proofs.PbMemProofs.
 Import ListNotations.
 Open Scope Z_scope.
 
@@ -163,6 +164,31 @@ Theorem C11_pb_stream_roundtrip_exact :
 Proof. exact pb_stream_roundtrip_exact. Qed.
 Print Assumptions C11_pb_stream_roundtrip_exact.
 
+(* The stack of protoConsumer is a Go slice: make([][]*datapb.Data, 1, 8).  From the 8th nested container on,
+   `append` moves it to a new backing array; a header or element pointer taken before keeps naming the old one.
+   Model/PbMem.v is the consumer over such slices (heap of backing arrays, bounds checks as faults).  For EVERY
+   tree of calls (any nesting depth, ill-formed ones included), every initial capacity and every growth policy
+   of `append`, it computes exactly what the list model computes: the moves are harmless for the code as it is
+   (it re-indexes pc.stack[top] after the doer). *)
+Theorem C11_pb_slices_refine :
+  forall (grow : nat -> nat) (cap0 : nat) e, pcm_run grow cap0 false e = pc_run e.
+Proof. exact pcm_run_refines. Qed.
+Print Assumptions C11_pb_slices_refine.
+
+(* hence the stream round trip holds over real slices, at every depth *)
+Theorem C11_pb_stream_roundtrip_slices :
+  forall (grow : nat -> nat) (cap0 : nat) e, even_hashes e = true ->
+  exists d, pcm_run grow cap0 false e = Ok d /\ consume_pb d = Ok (pb_image e).
+Proof. exact pcm_stream_roundtrip. Qed.
+Print Assumptions C11_pb_stream_roundtrip_slices.
+
+(* the slice model tells the code from the rewrite `frame := &pc.stack[top]; doer(); els := *frame`: that one
+   is wrong as soon as the stack moves (8 nested containers with the capacity of NewProtoConsumer) *)
+Theorem C11_pb_retained_pointer_refuted :
+  exists e, even_hashes e = true /\ pcm_run go_grow 8 true e <> pc_run e.
+Proof. exact pcm_retained_pointer_refuted. Qed.
+Print Assumptions C11_pb_retained_pointer_refuted.
+
 (* the calls ConsumePBData makes for ToPBData v are the calls v denotes (for every v) *)
 Theorem C11_pb_value_events :
   forall v, consume_pb (to_pb v) = Ok (pb_image (events_of v)).
@@ -252,4 +278,14 @@ Example C11_pb_stream_nonvacuous :
   pc_run e = Ok (PbArr [PbBin [0%N; 255%N]; PbRef 0; PbHash [(PbArr [], PbFloat 0)]]) /\
   (let* d := pc_run e in consume_pb d) = Ok e /\
   from_pb (to_pb (VBin [1%N])) = Ok VUndef.
+Proof. repeat split; vm_compute; reflexivity. Qed.
+
+(* 12 nested arrays: the stack of NewProtoConsumer (capacity 8) has moved to a second backing array (16 cells) on the
+   way down; the message is complete, the elements that follow the nested array at each level included *)
+Example C11_pb_slices_nonvacuous :
+  let e := EArr [EAdd (SInt 7); nest 11%nat (EArr [EAdd (SInt 42); EAdd (SFloat 4602678819172646912)]); EAdd (SInt 8)] in
+  even_hashes e = true /\
+  (let* m := pcm_ev go_grow false (sl_make1 [] 8 []) e in Ok (length (m_heap m), sl_cap (m_sl m))) = Ok (2%nat, 16%nat) /\
+  pc_run_mem e = Ok (PbArr [PbInt 7; pb_of_ev (nest 11%nat (EArr [EAdd (SInt 42); EAdd (SFloat 4602678819172646912)])); PbInt 8]) /\
+  (let* d := pc_run_mem e in consume_pb d) = Ok e.
 Proof. repeat split; vm_compute; reflexivity. Qed.
